@@ -32,6 +32,13 @@ func ConditionNameDoesntMatchError(conditionName string, conditionNestedName str
 	)
 }
 
+func ConditionWithoutParametersError(conditionName string) error {
+	return fmt.Errorf( //nolint:goerr113
+		"the '%s' condition has no parameters, which the OpenFGA DSL syntax cannot express",
+		conditionName,
+	)
+}
+
 func ConditionParameterUnsupportedTypeError(parameterName string, parameterType string) error {
 	return fmt.Errorf( //nolint:goerr113
 		"the '%s' condition parameter has the type '%s', which the OpenFGA DSL syntax cannot express",
